@@ -1,12 +1,14 @@
 #!/bin/sh
-# usage: tools/matrix_parallel.sh <workers> <outfile>
+# usage: tools/matrix_parallel.sh <workers> <outfile> [<items file: lines "selftest <patch>" / "seeded <dir>/patch.diff">]
 # Runs every selftest mutant and every seeded change against its property's quick check,
 # spread over <workers> private workspace copies (each with its own worktree of /repo and its
 # own build directories), so that /repo itself is never modified. Removes the workspaces afterwards.
 n="${1:-4}"; out="${2:-/tmp/matrix.log}"
 cd /verif
+if [ -n "$3" ]; then cp "$3" /tmp/matrix.items; else
 ls selftest/mutants/C*.patch | sed 's#^#selftest #' > /tmp/matrix.items
 for d in seeded/*/*/; do echo "seeded $d/patch.diff"; done >> /tmp/matrix.items
+fi
 total=$(wc -l < /tmp/matrix.items)
 i=0
 while [ $i -lt $n ]; do
@@ -15,6 +17,8 @@ while [ $i -lt $n ]; do
   awk -v n=$n -v i=$i 'NR % n == i' /tmp/matrix.items > /tmp/wk/$ws/items
   (
     cd /tmp/wk/$ws/verif
+    # start from the dependency artefacts already built for /verif (the workspace's own crates are rebuilt)
+    [ -d /verif/.build ] && cp -a /verif/.build /tmp/wk/$ws/verif/.build && rm -rf /tmp/wk/$ws/verif/.build/run
     ./setup.sh > /tmp/wk/$ws/setup.log 2>&1
     while read kind p; do
       p=$(echo "$p" | sed 's#//#/#')
